@@ -42,7 +42,10 @@ def run(bid, props):
     scratch = tempfile.mkdtemp(prefix=f"bn_{bid}_", dir="/tmp")
     results = {}
     try:
-        shutil.copytree("/repo/edgegraph", os.path.join(scratch, "edgegraph"))
+        # the committed tree (HEAD), not the working tree: a seeded patch may be applied to /repo right now
+        ar = subprocess.run("git -C /repo archive HEAD edgegraph | tar -x -C " + scratch, shell=True)
+        if ar.returncode:
+            sys.exit("git archive failed")
         ap = sh(["patch", "-p1", "-s", "-d", scratch, "-i", os.path.join(d, "patch.diff")])
         if ap.returncode:
             sys.exit("patch does not apply: " + ap.stdout + ap.stderr)
